@@ -16,6 +16,7 @@ import (
 	"net"
 	"os"
 	"path/filepath"
+	"regexp"
 	"runtime"
 	"strings"
 	"sync"
@@ -55,8 +56,8 @@ type Ev struct {
 }
 
 type Obs struct {
-	Events []Ev `json:"events"`
-	Code   int  `json:"code"` // 0 returned, 2 panicked
+	Events []Ev   `json:"events"`
+	Code   int    `json:"code"` // 0 returned, 2 panicked
 	Panic  string `json:"panic,omitempty"`
 }
 
@@ -187,8 +188,12 @@ var stackBuf = make([]byte, 4<<20)
 func pumpsAlive() bool {
 	n := runtime.Stack(stackBuf, true)
 	d := string(stackBuf[:n])
-	return strings.Contains(d, "services/smtp.(*Service).Handle.func") || strings.Contains(d, "services/ftp.(*ftpService).Handle.func")
+	// any receiver type name: only the exported method name Handle (the services.Servicer interface)
+	// is relied on, so that renaming the unexported service types is not mistaken for "no pump"
+	return pumpFrame.MatchString(d)
 }
+
+var pumpFrame = regexp.MustCompile(`services/(smtp|ftp)\.\(\*\w+\)\.Handle\.func`)
 
 func (r *recorder) quiesce(svc string) {
 	if svc != "ftp" && svc != "smtp" {
@@ -607,7 +612,7 @@ func main() {
 	header := "From Coq Require Import Uint63.\nFrom HT Require Import Common.Bytes Common.Pack C04.Model C04.Check.\n" +
 		strings.Join(sdefs.lines, "\n") + "\n" + strings.Join(odefs.lines, "\n")
 	if len(tcp) > 0 || o.Only == "" {
-		hx.Write(o, "C04", "tcp", header, "case", tcp, dist, nil, 150)
+		hx.Write(o, "C04", "tcp", header, "case", tcp, dist, nil, 300) // every shard parses the whole header (all stream definitions): fewer, larger shards
 	}
 	if len(udp) > 0 || o.Only == "" {
 		hx.Write(o, "C04", "udp", header, "case", udp, map[string]int{"datagrams": len(udp)}, nil, 150)
